@@ -36,6 +36,10 @@ def replay(info, ce):
             for xi in (0.0, 0.05, 0.6):
                 cases.append((rng.randn(n), dt, np.array([0.3, 1.7]), xi))
                 cases.append((rng.randn(n), dt, np.array([0.0, 0.5]), xi))
+    # the absolute time scale must not matter: a very short record step with periods in the same ratio (T/dt = 50, 200)
+    for xi in (0.0, 0.05):
+        cases.append((rng.randn(12), 1e-10, np.array([5e-9, 2e-8]), xi))
+        cases.append((rng.randn(12), 1e-6, np.array([5e-5, 2e-4]), xi))
     for acc, dt, periods, xi in cases:
         try:
             if info.get('entry') == 'AccSignal.response_series' and info.get('pre', 'fresh') != 'fresh':
